@@ -171,6 +171,95 @@ Definition eok (l : elayer) (s : istream) : Prop :=
   | _ => True
   end.
 
+(* ---- FlagsEnum: a spelling 'p|q|...' (and a dict of labels) encodes to the bitwise UNION of the masks of the labels it names, whatever their
+   order, however often a label is repeated and whether or not the masks overlap ---- *)
+Definition part_mask (table : list (name * Z)) (part : list N) : option (option Z) :=
+  match strip part with
+  | [] => Some None                          (* an empty part names nothing *)
+  | nm => match label_value table nm with Some z => Some (Some z) | None => None end
+  end.
+
+Fixpoint union_masks (table : list (name * Z)) (parts : list (list N)) (f : Z) : option Z :=
+  match parts with
+  | [] => Some f
+  | part :: t => match part_mask table part with
+                 | Some None => union_masks table t f
+                 | Some (Some z) => union_masks table t (Z.lor f z)
+                 | None => None
+                 end
+  end.
+
+Definition flags_step (table : list (name * Z)) (p : path) (acc : res val) (part : list N) : res val :=
+  let* a := acc in
+  let nm := strip part in
+  match nm with
+  | [] => Ok a
+  | _ => match label_value table nm, a with
+         | Some z, VInt f => Ok (VInt (Z.lor f z))
+         | _, _ => raise EMapping p
+         end
+  end.
+
+Lemma flags_fold_err table p parts e q : fold_left (flags_step table p) parts (Err e q) = Err e q.
+Proof. induction parts as [|a t IH]; cbn [fold_left]; [reflexivity|]. exact IH. Qed.
+
+Lemma flags_fold_spec table p : forall parts f,
+  fold_left (flags_step table p) parts (Ok (VInt f)) =
+  match union_masks table parts f with Some m => Ok (VInt m) | None => raise EMapping p end.
+Proof.
+  induction parts as [|a t IH]; intros f; cbn [fold_left union_masks]; [reflexivity|].
+  unfold part_mask. unfold flags_step at 2. cbn [bind].
+  destruct (strip a) as [|c cs] eqn:Es.
+  - apply IH.
+  - destruct (label_value table (c :: cs)) as [z|].
+    + apply IH.
+    + unfold raise. apply flags_fold_err.
+Qed.
+
+Theorem flags_string_is_union : forall table cps p,
+  flags_encode table (VStr cps) p =
+  match union_masks table (split_bar cps []) 0 with Some m => Ok (VInt m) | None => raise EMapping p end.
+Proof. intros. unfold flags_encode. apply (flags_fold_spec table p). Qed.
+
+Definition part_bit (table : list (name * Z)) (n : Z) (part : list N) : bool :=
+  match part_mask table part with Some (Some z) => Z.testbit z n | _ => false end.
+
+Theorem union_masks_bits : forall table parts f m,
+  union_masks table parts f = Some m ->
+  forall n, Z.testbit m n = Z.testbit f n || existsb (part_bit table n) parts.
+Proof.
+  induction parts as [|a t IH]; intros f m H n; cbn [union_masks existsb] in *.
+  - injection H as <-. rewrite orb_false_r. reflexivity.
+  - unfold part_bit at 1. destruct (part_mask table a) as [[z|]|]; [| |discriminate].
+    + rewrite (IH _ _ H n), Z.lor_spec, orb_assoc. reflexivity.
+    + rewrite (IH _ _ H n). reflexivity.
+Qed.
+
+(* the encoding of a spelling: bit n is set exactly when the mask of one of the named labels has it *)
+Theorem flags_string_bits : forall table cps p m,
+  flags_encode table (VStr cps) p = Ok (VInt m) ->
+  forall n, Z.testbit m n = existsb (part_bit table n) (split_bar cps []).
+Proof.
+  intros table cps p m H n. rewrite flags_string_is_union in H.
+  destruct (union_masks table (split_bar cps []) 0) as [m'|] eqn:E; [|discriminate].
+  injection H as <-. rewrite (union_masks_bits _ _ _ _ E n), Z.testbit_0_l. reflexivity.
+Qed.
+
+(* hence order, repetition and overlap do not matter: two spellings that name the same labels encode to the same integer *)
+Theorem flags_string_order_and_repeats : forall table a b p ma mb,
+  flags_encode table (VStr a) p = Ok (VInt ma) -> flags_encode table (VStr b) p = Ok (VInt mb) ->
+  (forall n, existsb (part_bit table n) (split_bar a []) = existsb (part_bit table n) (split_bar b [])) ->
+  ma = mb.
+Proof.
+  intros table a b p ma mb Ha Hb Hsame. apply Z.bits_inj. intros n.
+  rewrite (flags_string_bits _ _ _ _ Ha n), (flags_string_bits _ _ _ _ Hb n). apply Hsame.
+Qed.
+
+(* a spelling with an unknown label is refused *)
+Theorem flags_string_unknown : forall table cps p,
+  union_masks table (split_bar cps []) 0 = None -> flags_encode table (VStr cps) p = raise EMapping p.
+Proof. intros table cps p H. rewrite flags_string_is_union, H. reflexivity. Qed.
+
 Theorem explicit_escapes_any_nest : forall ls cx p s,
   iseekable s = true -> Forall (fun l => eok l s) ls ->
   exists q, parse (ewrap ls CError) cx p s = Err EExplicit q.
